@@ -87,7 +87,7 @@ def run(ctx):
     for k, identity in enumerate(ids):
         if not ctx.mine(k):
             continue
-        for j in range(40 if ctx.quick else 1500):
+        for j in range(100 if ctx.quick else 1500):
             cs = ("max", "small", "one", "random", "max")[j % 5]
             try:
                 enc = refmodel.build(identity, rng, "random", cs, refmodel.MSTRATS[j % len(refmodel.MSTRATS)])
